@@ -297,6 +297,28 @@ UNITS = [
       unwind_functions={"rtr_sync_receive_and_store_pdus": 4, "strlen": 70},
       native=None, link=PKT_LINK, timeout=14000, object_bits=10, mem_gb=40,
       stubs=["lrtr_malloc", "lrtr_realloc", "lrtr_free", "pfx_table_*", "spki_table_*", "lrtr_dbg", "pthread_setcancelstate"]),
+    # ------------------------------------------------------------------ payload phase, modular pieces (C03, C14)
+    U(id="pdu2rec_pfx", props=['C03'], file="units/apply.c", entry="h_pdu2rec_pfx", defines=["H_ENTRY=h_pdu2rec_pfx"], enforce=[],
+      checked_by_assertions=["rtr_prefix_pdu_2_pfx_record"], need_classes=["assertion"], replace=["rtr_send_error_pdu_from_host", "verif_fmt"],
+      kind="complete", native=None, link=PKT_LINK, stubs=PKT_STUBS + ["pfx_table_*", "spki_table_*", "lrtr_realloc"]),
+    U(id="pdu2rec_key", props=['C03'], file="units/apply.c", entry="h_pdu2rec_key", defines=["H_ENTRY=h_pdu2rec_key"], enforce=[],
+      checked_by_assertions=["rtr_key_pdu_2_spki_record"], need_classes=["assertion"], replace=["rtr_send_error_pdu_from_host", "verif_fmt"],
+      kind="complete", native=None, link=PKT_LINK, stubs=PKT_STUBS + ["pfx_table_*", "spki_table_*", "lrtr_realloc"]),
+    U(id="update_pfx", props=['C03', 'C14', 'C09'], file="units/apply.c", entry="h_update_pfx", defines=["H_ENTRY=h_update_pfx"], enforce=[],
+      checked_by_assertions=["rtr_update_pfx_table"], need_classes=["assertion"], replace=["rtr_send_error_pdu_from_host", "verif_fmt"],
+      kind="complete", native=None, link=PKT_LINK, stubs=PKT_STUBS + ["pfx_table_*", "spki_table_*", "lrtr_realloc"]),
+    U(id="undo_pfx", props=['C03'], file="units/apply.c", entry="h_undo_pfx", defines=["H_ENTRY=h_undo_pfx"], enforce=[],
+      checked_by_assertions=["rtr_undo_update_pfx_table"], need_classes=["assertion"], replace=["rtr_send_error_pdu_from_host", "verif_fmt"],
+      kind="complete", native=None, link=PKT_LINK, stubs=PKT_STUBS + ["pfx_table_*", "spki_table_*", "lrtr_realloc"]),
+    U(id="update_key", props=['C03', 'C14'], file="units/apply.c", entry="h_update_key", defines=["H_ENTRY=h_update_key"], enforce=[],
+      checked_by_assertions=["rtr_update_spki_table"], need_classes=["assertion"], replace=["rtr_send_error_pdu_from_host", "verif_fmt"],
+      kind="complete", native=None, link=PKT_LINK, stubs=PKT_STUBS + ["pfx_table_*", "spki_table_*", "lrtr_realloc"]),
+    U(id="undo_key", props=['C03'], file="units/apply.c", entry="h_undo_key", defines=["H_ENTRY=h_undo_key"], enforce=[],
+      checked_by_assertions=["rtr_undo_update_spki_table"], need_classes=["assertion"], replace=["rtr_send_error_pdu_from_host", "verif_fmt"],
+      kind="complete", native=None, link=PKT_LINK, stubs=PKT_STUBS + ["pfx_table_*", "spki_table_*", "lrtr_realloc"]),
+    U(id="store_pfx", props=['C03', 'C18', 'C14'], file="units/apply.c", entry="h_store_pfx", defines=["H_ENTRY=h_store_pfx"], enforce=[],
+      checked_by_assertions=["rtr_store_prefix_pdu"], need_classes=["assertion"], replace=["rtr_send_error_pdu_from_host", "verif_fmt"],
+      kind="complete", native=None, link=PKT_LINK, stubs=PKT_STUBS + ["pfx_table_*", "spki_table_*", "lrtr_realloc"]),
     # ------------------------------------------------------------------ synchronisation layer (C05, C07, C13)
     U(id="cache_response", props=["C05", "C07", "C14"], file="units/sync.c", entry="h_cache_response", defines=["H_ENTRY=h_cache_response"],
       enforce=["rtr_handle_cache_response_pdu"], replace=["rtr_send_error_pdu_from_host"], kind="complete", native=None,
